@@ -107,8 +107,11 @@ class LocModel:
         what = "CSR page" if self.kind == "csr" else "IRQ number"
         for name, v in h.locs.items():
             if isinstance(v, bool) or not isinstance(v, int) or not (0 <= v < self.N):
-                viol.append(dict(rule="loc.range", msg=f"{what} {v!r} granted to {name!r}: outside the legal range 0..{self.N - 1} "
-                                 f"({self.kind} handler, {self.N} locations)", detail=dict(n_locs=self.N, value=v)))
+                explicit = call[0] == "add" and call[2] is not None and name == L["name"] and not L["reused"]
+                # loc.range.last is the signature of DESIGN candidate j (explicit n == n_locs accepted)
+                rule = ("loc.range.last" if v == self.N else "loc.range.fixed") if explicit else "loc.range.auto"
+                viol.append(dict(rule=rule, msg=f"{what} {v!r} granted to {name!r} ({'explicit request' if explicit else 'automatic'}): outside the "
+                                 f"legal range 0..{self.N - 1} ({self.kind} handler, {self.N} locations)", detail=dict(n_locs=self.N, value=v)))
                 break
         if len(set(vals)) != len(vals):
             dup = sorted(v for v, c in collections.Counter(vals).items() if c > 1)
